@@ -56,30 +56,27 @@ InAvail(p, avail) ==
         ELSE s[1] - Tol <= p /\ p <= s[2] + Tol
 
 \* all ways of choosing one pivot per sampled annotator, replayed through the avail bookkeeping
-RECURSIVE Seqs(_, _, _)
-Seqs(k, avail, acc) ==
+\* (piv[k] = candidate pivots of sampled annotator k, computed once per record)
+RECURSIVE Seqs(_, _, _, _)
+Seqs(k, avail, acc, piv) ==
     IF k > N THEN {acc}
-    ELSE IF Pivots(k) = {} THEN Seqs(k + 1, avail, Append(acc, <<0, FALSE, FALSE, FALSE>>))
+    ELSE IF piv[k] = {} THEN Seqs(k + 1, avail, Append(acc, <<0, FALSE, FALSE, FALSE>>), piv)
     ELSE UNION {Seqs(k + 1, IF avail # {} THEN RemoveZone(p, avail) ELSE avail,
                      Append(acc, <<p, avail # {},                                               \* pivot, drawn while room remained
-                                   IF avail # {} THEN InAvail(p, avail) ELSE (R.lo - Tol <= p /\ p <= R.hi + Tol), TRUE>>))
-                : p \in Pivots(k)}
-All == Seqs(1, {<<R.lo, R.hi>>}, <<>>)
-Good == {q \in All : \A k \in 1..N : q[k][3]}
-Base == IF Good # {} THEN Good ELSE All
+                                   IF avail # {} THEN InAvail(p, avail) ELSE (R.lo - Tol <= p /\ p <= R.hi + Tol), TRUE>>), piv)
+                : p \in piv[k]}
 Sep(q, d) == \A i, j \in 1..N : (i < j /\ q[j][2] /\ q[i][4] /\ q[j][4]) => Abs(q[i][1] - q[j][1]) >= d
 
 ObsAnnotatorCount == N = Len(R.gt)
 ObsNonEmpty == \E k \in 1..N : R.sample[k] # <<>>
-ObsTranslation == \A k \in 1..N : Assign(k) # {}                 \* a copy of ONE annotator shifted by ONE pivot, wrap rule
-ObsPivotFromAvail == Good # {}                                   \* each pivot in what was still available (else: in the bounds)
-ObsPivotInBounds == \E q \in Base : \A k \in 1..N : q[k][4] =>
+ObsTranslation(piv) == \A k \in 1..N : piv[k] # {}               \* a copy of ONE annotator shifted by ONE pivot, wrap rule
+ObsPivotInBounds(Base) == \E q \in Base : \A k \in 1..N : q[k][4] =>
                         (IF R.mode = 1 THEN R.lo - K - Tol < q[k][1] ELSE R.lo - Tol <= q[k][1]) /\ q[k][1] <= R.hi + Tol
-ObsPivotInBoundsStrict == \E q \in Base : \A k \in 1..N : q[k][4] => R.lo - Tol <= q[k][1] /\ q[k][1] <= R.hi + Tol
-ObsIntPivot == R.mode = 1 => \E q \in Base : \A k \in 1..N : (q[k][4] /\ q[k][2]) => q[k][1] % K = 0
-ObsSeparated == \E q \in Base : Sep(q, R.dist - Tol)
-ObsSeparatedUpToTruncation == \E q \in Base : Sep(q, R.dist - K + 1 - Tol)
-ObsPivotLogged == \E q \in Base : \A k \in 1..N : q[k][4] =>
+ObsPivotInBoundsStrict(Base) == \E q \in Base : \A k \in 1..N : q[k][4] => R.lo - Tol <= q[k][1] /\ q[k][1] <= R.hi + Tol
+ObsIntPivot(Base) == R.mode = 1 => \E q \in Base : \A k \in 1..N : (q[k][4] /\ q[k][2]) => q[k][1] % K = 0
+ObsSeparated(Base) == \E q \in Base : Sep(q, R.dist - Tol)
+ObsSeparatedUpToTruncation(Base) == \E q \in Base : Sep(q, R.dist - K + 1 - Tol)
+ObsPivotLogged(Base) == \E q \in Base : \A k \in 1..N : q[k][4] =>
                       \E i \in 1..Len(R.uniforms) :
                           \/ Near(q[k][1], R.uniforms[i])
                           \/ R.mode = 1 /\ q[k][1] % K = 0 /\ Abs(q[k][1] - R.uniforms[i]) < K + Tol
@@ -90,15 +87,20 @@ Spec == Init /\ [][Next]_tid
 
 Judge(name, ok) == ok \/ PrintT(ToJson([verdict |-> name, tid |-> tid]))
 Verdicts ==
+    LET piv == [k \in 1..N |-> Pivots(k)]
+        all == Seqs(1, {<<R.lo, R.hi>>}, <<>>, piv)
+        good == {q \in all : \A k \in 1..N : q[k][3]}                \* each pivot in what was still available (else: in the bounds)
+        base == IF good # {} THEN good ELSE all
+    IN
     /\ PrintT(ToJson([done |-> tid]))
     /\ Judge("ObsAnnotatorCount", ObsAnnotatorCount)
     /\ Judge("ObsNonEmpty", ObsNonEmpty)
-    /\ Judge("ObsTranslation", ObsTranslation)
-    /\ Judge("ObsPivotFromAvail", ObsPivotFromAvail)
-    /\ Judge("ObsPivotInBounds", ObsPivotInBounds)
-    /\ Judge("ObsPivotInBoundsStrict", ObsPivotInBoundsStrict)
-    /\ Judge("ObsIntPivot", ObsIntPivot)
-    /\ Judge("ObsSeparated", ObsSeparated)
-    /\ Judge("ObsSeparatedUpToTruncation", ObsSeparatedUpToTruncation)
-    /\ Judge("ObsPivotLogged", ObsPivotLogged)
+    /\ Judge("ObsTranslation", ObsTranslation(piv))
+    /\ Judge("ObsPivotFromAvail", good # {})
+    /\ Judge("ObsPivotInBounds", ObsPivotInBounds(base))
+    /\ Judge("ObsPivotInBoundsStrict", ObsPivotInBoundsStrict(base))
+    /\ Judge("ObsIntPivot", ObsIntPivot(base))
+    /\ Judge("ObsSeparated", ObsSeparated(base))
+    /\ Judge("ObsSeparatedUpToTruncation", ObsSeparatedUpToTruncation(base))
+    /\ Judge("ObsPivotLogged", ObsPivotLogged(base))
 =============================================================================
